@@ -143,7 +143,10 @@ class Explorer:
         res0, tr0 = self.run(fn, ())
         res0b, tr0b = self.run(fn, ())
         if tr0 != tr0b or observe(res0) != observe(res0b):
-            raise HarnessError('replaying the same schedule gave different observations (uncaptured nondeterminism)')
+            import difflib
+            a, b = observe(res0), observe(res0b)
+            diff = [l for l in difflib.unified_diff(a.splitlines() or [a], b.splitlines() or [b], lineterm='', n=0)][:8] if tr0 == tr0b else ['traces differ: %r vs %r' % (tr0[:6], tr0b[:6])]
+            raise HarnessError('replaying the same schedule gave different observations (uncaptured nondeterminism): %s' % ' | '.join(x[:300] for x in diff))
         self.stats['executions'] -= 1
         stack = [((), res0, tr0)]
         n = 0; full = True
